@@ -47,7 +47,11 @@ Definition eff (sig : nat -> params) (f : flat) : option entry :=
   | None => None
   end.
 
+(** identical invocations: Python equality of the effective arguments (as
+    Python programmers, and Call.__eq__, compare them) *)
 Definition entry_eqb (a b : entry) : bool := Nat.eqb (fst a) (fst b) && kw_eqb (snd a) (snd b).
+(** "exactly the arguments specified": type-strict *)
+Definition entry_eqb_s (a b : entry) : bool := Nat.eqb (fst a) (fst b) && kw_eqb_s (snd a) (snd b).
 
 (** skip an invocation identical to one already executed; keep the rest in order *)
 Fixpoint run_once (executed : list entry) (l : list entry) : list entry :=
@@ -82,7 +86,7 @@ Definition spec_ok (sig : nat -> params) (reqs : list request) (dflt : option ca
       match obs with
       | Err _ => false
       | Ok (log, results) =>
-          list_eqb entry_eqb (if dedupe_on then run_once [] order else order) log &&
+          list_eqb entry_eqb_s (if dedupe_on then run_once [] order else order) log &&
           results_ok log results
       end
   end.
